@@ -43,6 +43,9 @@ def gen_cases(rng, tier: str) -> list[dict]:
             c["xobj"] = rng.random() < 0.5
             c["prior"] = prior
             prior = c["p"]
+            if rng.random() < 0.4:
+                # another root sharing a compound sub-expression object is used at this point in between
+                c["sibling"] = common.make_eval_case(origin, e, common.points_for(rng, e, 1, extra=0.0)[0])["p"]
             if rng.random() < 0.5:
                 # the route's own object is asked at a neighbouring point first (hash-colliding if possible)
                 p2, q2 = common.hash_twin(p, rng)
@@ -57,6 +60,20 @@ def gen_cases(rng, tier: str) -> list[dict]:
             c.update(x=rng.choice(common.names_of(e)), xobj=rng.random() < 0.5, prior=None)
             cases.append(c)
     return cases
+
+
+def shared_use(e, p, q) -> None:
+    """e is evaluated at p, then *another* root that shares e's compound sub-expression objects is
+    evaluated and differentiated at q; whatever that leaves on the shared objects must not matter"""
+    subs = [c for c in wire.children(e) if wire.children(c)]
+    deeper = [d for c in subs for d in wire.children(c) if wire.children(d)]
+    call(e.at, p)
+    for w in (subs + deeper)[:3]:
+        other = X.Add(w, X.Constant(1))
+        call(other.at, q)
+        vs = sorted(other._variable_names)
+        if vs:
+            call(lambda: sm.Partial(other, vs[0]).at(q))
 
 
 def close(a, b, tol: float) -> bool:
@@ -84,6 +101,8 @@ def check_cases(cases: list[dict], rep: Report, known: dict) -> None:
             fresh = wire.build_raw(c["e"])       # fresh object; at most one earlier evaluation elsewhere
             if c.get("prior"):
                 call(fresh.at, wire.build_point(c["prior"]))
+            if c.get("sibling"):
+                shared_use(fresh, p, wire.build_point(c["sibling"]))
             xx = x
             if r in routes.DERIV_ROUTES:
                 xx = None
@@ -168,7 +187,12 @@ def k1_explains(c: dict, e, p) -> bool:
     with common.k1_disabled():
         outs = []
         for r in routes.routes_for(e, c["x"]):
-            outs.append(routes.run_route(r, wire.build_raw(c["e"]), c["x"] if r not in routes.DERIV_ROUTES else None, p,
+            fresh = wire.build_raw(c["e"])
+            if c.get("prior"):
+                call(fresh.at, wire.build_point(c["prior"]))
+            if c.get("sibling"):
+                shared_use(fresh, p, wire.build_point(c["sibling"]))
+            outs.append(routes.run_route(r, fresh, c["x"] if r not in routes.DERIV_ROUTES else None, p,
                                          warm=[wire.build_point(c["warm"])] if c.get("warm") else ()))
     usable = [o for o in outs if not (o[0] == "err" and o[1] in ("overflow", "timeout", "recursion"))]
     if not usable:
